@@ -44,7 +44,8 @@ def __plugin_generator(configured):
             module, cls = plugin.rsplit(".", 1)
             yield getattr(import_module(module), cls)
             logging.debug('Did import integration %s', plugin)
-        except (DidNotEnable, Exception) as e:
+        except BaseException as e:
+            # whatever an integration raises when it is imported (also SystemExit and the like): it is not loaded
             logging.debug(
                 "Did not import integration %s: %s", plugin, e
             )
@@ -72,7 +73,8 @@ def load_plugins(config: 'ConfigService', custom=None) -> List['Plugin']:
             if not isinstance(order, (int, float)):
                 raise TypeError("order of plugin %s is not a number: %s" % (plugin_instance.name, order))
             loaded.append((order, len(loaded), plugin_instance))
-        except Exception as e:
+        except BaseException as e:
+            # the plugin's own code fails, whatever it raises: it must not stop the others, nor the start of the agent
             logging.debug("Could not load plugin %s: %s", plugin, e)
 
     loaded.sort(key=lambda entry: entry[:2])
